@@ -69,7 +69,9 @@ class Args(dict):
         try:
             return self[n]
         except KeyError:
-            raise AttributeError(n)
+            if n.startswith("__"):
+                raise AttributeError(n)
+            raise Unsupported("the contract refers to the parameter %r, which the function does not have in the current source" % n)
 
 
 class Contract:
@@ -793,6 +795,41 @@ class Registry:
         return True
 
 
+class _AliasEnv:
+    """The locals as a loop invariant sees them: a local the sidecar spec names is looked up under the name the current
+    source uses for it (LoopSpec._resolve_names); a name that is in scope under neither is outside the subset, never a crash."""
+
+    def __init__(self, env, alias):
+        self._env, self._alias = env, alias
+
+    def __getitem__(self, name):
+        real = self._alias.get(name, name)
+        if real not in self._env:
+            raise Unsupported("the loop invariant refers to the local %r, which is not in scope in the current source" % name)
+        return self._env[real]
+
+    def __contains__(self, name):
+        return self._alias.get(name, name) in self._env
+
+    def get(self, name, default=None):
+        return self._env.get(self._alias.get(name, name), default)
+
+
+def _mutated_names(node):
+    """names that the loop body assigns, or calls a method on, or stores into by subscript"""
+    import ast
+    out = set()
+    for n in ast.walk(node):
+        if isinstance(n, ast.Call) and isinstance(n.func, ast.Attribute) and isinstance(n.func.value, ast.Name):
+            out.add(n.func.value.id)
+        elif isinstance(n, (ast.Assign, ast.AugAssign, ast.AnnAssign)):
+            for t in (n.targets if isinstance(n, ast.Assign) else [n.target]):
+                for m in ast.walk(t):
+                    if isinstance(m, ast.Name):
+                        out.add(m.id)
+    return out
+
+
 class LoopCtx:
     """What a loop invariant may talk about."""
 
@@ -802,7 +839,7 @@ class LoopCtx:
         self.a = eng.cur_args           # function arguments
         self.cL = c_entry               # heap at loop entry
         self.c = Ctx(eng, dict(st.heap))  # current heap
-        self.env = st.env               # current locals
+        self.env = _AliasEnv(st.env, getattr(eng, "loop_alias", None) or {})   # current locals (spec name -> actual name)
         self.k = k                      # number of completed iterations (ordered iteration)
         self.seen = seen                # set of elements already processed (set iteration)
         self.elems = elems              # the iterated set (SetSort) / None
@@ -829,7 +866,9 @@ class LoopSpec:
             for sub in eng_subkeys(eng, key):
                 old = eng.field_array(st, sub)
                 st.heap[sub] = fresh("HL_" + sub.replace("#", "_").replace("$", "S").replace(".", "_"), old.sort())
+        alias = getattr(eng, "loop_alias", None) or {}
         for name, spec in self.carried.items():
+            name = alias.get(name, name)
             v = make_symbolic(eng, st, name, spec)
             if v.k in ("set", "list", "dict", "bytes", "seq"):
                 v = SV(v.k, v.t, cls=v.cls, x=v.x,
@@ -860,7 +899,35 @@ class LoopSpec:
         for name, f in self._with_ghost(eng, L, lambda: self.inv(L)).items():
             st.define(f, tag="loopinv." + name)
 
+    def _resolve_names(self, node, st):
+        """The spec names its loop-carried locals as the pinned source does.  When the current source has no local of that
+        name, the local playing the same role is looked for: same kind of value, mutated by the loop body, and not one of
+        the other names the spec declares.  Exactly one candidate: the spec is read with that name; otherwise the function
+        is outside the subset (UNDECIDED), never a failed obligation."""
+        alias = {}
+        missing = [n for n in self.carried if n not in st.env]
+        if not missing:
+            return alias
+        mut = _mutated_names(node)
+        for n in missing:
+            kind = str(self.carried[n]).split(":")[0]
+            cands = [v for v, sv in st.env.items() if v in mut and v not in self.carried and v not in alias.values()
+                     and getattr(sv, "k", None) == kind]
+            if len(cands) != 1:
+                raise Unsupported("the loop invariant refers to the local %r, which is not in scope in the current source "
+                                  "(%d candidates of kind %s)" % (n, len(cands), kind))
+            alias[n] = cands[0]
+        return alias
+
     def run(self, eng, node, it, st, ordinal):
+        saved = getattr(eng, "loop_alias", None)
+        eng.loop_alias = self._resolve_names(node, st)
+        try:
+            return self._run(eng, node, it, st, ordinal)
+        finally:
+            eng.loop_alias = saved
+
+    def _run(self, eng, node, it, st, ordinal):
         import z3 as _z3
         cL = Ctx(eng, dict(st.heap))
         outs = []
